@@ -13,7 +13,9 @@ from props import _generic
 
 MODULE = "NgoVerif.Props.C02"
 LEVEL = ("Lean: C01's composition with the cost vector in the observation; aggregate algebra over sets of weighted tuples: "
-         "telescoping chain weights, sum-of-sums flattening iff tuples stay distinct (with counterexample). The models of the passes that "
+         "telescoping chain weights, sum-of-sums flattening iff tuples stay distinct (with counterexample); for typed programs the "
+         "cost tuples of an objective are kept by cleanup's deletions (weaker copy: every interpretation; implied literal: every "
+         "stable model) and by unused's removals, each from an executable check evaluated on the real rewrites. The models of the passes that "
          "rewrite objectives (minmax, sum_chains, inline) are re-tied to the code here at a small size. The passes' tuple "
          "uniqueness / padding decisions are validated on the real optimize with clingo: pairs (answer set on OUT, cost per "
          "priority, absent level = 0) under --opt-mode=enum.")
@@ -35,7 +37,14 @@ def _corr(mod):
     return f
 
 
-CORR = [("minmax (objectives)", _corr(corr_minmax)), ("sum rewriting (objectives)", _corr(corr_sumrewrite)), ("inline (objectives)", _corr(corr_inline))]
+def _semcond(rng, quick):
+    # the executable hypotheses of C02_cleanup_weaker_copy / C02_cleanup_implied on the deletions the real cleanup makes
+    import corr_semcond
+    return corr_semcond.run(rng, 60 if quick else 2000, corpus_limit=None, kinds={"cleanup"})
+
+
+CORR = [("minmax (objectives)", _corr(corr_minmax)), ("sum rewriting (objectives)", _corr(corr_sumrewrite)), ("inline (objectives)", _corr(corr_inline)),
+        ("cost theorems' side conditions on real deletions", _semcond)]
 
 
 def has_objective(text):
